@@ -333,6 +333,12 @@ def run_real(case):
                 transport["json"] = {kk: v for kk, v in doc.items() if isinstance(v, (str, int)) and not isinstance(v, bool)}
             except Exception as e:          # noqa: BLE001
                 transport["json"] = {"error": type(e).__name__}
+            # a plain record of the flat type made FROM the group (RecordDescriptor.init_from_record): the same flat values
+            try:
+                ifr = g._desc.init_from_record(g)
+                transport["init_from_record"] = [[kk, V.observe(getattr(ifr, kk))] for kk in ifr.__slots__]
+            except Exception as e:          # noqa: BLE001
+                transport["init_from_record"] = {"error": type(e).__name__}
             res = {"inputs": before, "inputs_after": [obs_rec(x) for x in g.records], "keys": keys, "values": vals, "transport": transport,
                    "asdict": asd, "asdict_sel": asd_sel, "asdict_exc": asd_exc, "sel": sel,
                    "output": {"name": g._desc.name, "fields": [list(t) for t in g._desc.get_field_tuples()]}}
@@ -583,6 +589,7 @@ def oracle(case, obs):
                     return f"grouped.{what} lacks {missing[:3]}"
         tr = obs.get("transport") or {}
         SIMPLE = ("str", "int", "none", "pybool", "boolean", "float", "bytes")
+        canon_ = lambda o: (o[0], o[2]) if o and o[0] in ("int", "str", "float") else ("none",) if o == ["none"] else None   # noqa: E731
         st = tr.get("stream")
         if st and isinstance(obs.get("asdict"), list):
             if "error" in st:
@@ -594,11 +601,18 @@ def oracle(case, obs):
                     return (f"grouped record through a binary stream: {st['count']} object(s) with {st['members']} members come "
                             f"back, {len(ins)} members were written")
                 got = dict((kk, v) for kk, v in st["asdict"])
-                canon_ = lambda o: (o[0], o[2]) if o and o[0] in ("int", "str", "float") else ("none",) if o == ["none"] else None   # noqa: E731
                 for kk, v in obs["asdict"]:
                     if canon_(v) is not None and canon_(got.get(kk) or ["?"]) != canon_(v):
                         return (f"grouped record through a binary stream: flat field {kk} is {json.dumps(got.get(kk))[:70]} "
                                 f"instead of {json.dumps(v)[:70]}")
+        ifr = tr.get("init_from_record")
+        if isinstance(ifr, list) and isinstance(obs.get("asdict"), list):
+            flat = dict((kk, v) for kk, v in obs["asdict"])
+            for kk, v in ifr:
+                if kk in flat and kk != "_version" and canon_(flat[kk]) is not None and canon_(v) != canon_(flat[kk]) \
+                        and flat[kk][0] == v[0]:
+                    return (f"init_from_record(group): field {kk} is {json.dumps(v)[:70]} instead of the group's flat value "
+                            f"{json.dumps(flat[kk])[:70]}")
         js = tr.get("json")
         if js and "error" not in js and isinstance(obs.get("asdict"), list):
             for kk, v in obs["asdict"]:
